@@ -28,13 +28,13 @@ def resLine : Eval.Res Float → String
 
 def intKernel (name : String) : Option (I64 → I64 → Except Err I64) :=
   match name with
-  | "addI" => some addI | "subI" => some subI | "mulI" => some mulI
-  | "intDivI" => some intDivI | "remI" => some remI | "modI" => some modI
-  | "intFloorDivI" => some intFloorDivI | "intPow" => some intPow
-  | "negI" => some fun x _ => negI x
-  | "absI" => some fun x _ => absI x
-  | "posI" => some fun x _ => posI x
-  | "signI" => some fun x _ => .ok (signI x)
+  | "addI" => some (U.addI Float) | "subI" => some (U.subI Float) | "mulI" => some (U.mulI Float)
+  | "intDivI" => some (U.intDivI Float) | "remI" => some (U.remI Float) | "modI" => some (U.modI Float)
+  | "intFloorDivI" => some (U.intFloorDivI Float) | "intPow" => some (U.intPow Float)
+  | "negI" => some fun x _ => U.negI Float x
+  | "absI" => some fun x _ => U.absI Float x
+  | "posI" => some fun x _ => U.posI Float x
+  | "signI" => some fun x _ => .ok (U.signI Float x)
   | _ => none
 
 def toNum : Term → Option (Num Float)
@@ -131,7 +131,7 @@ def queriesHandler : Handler := fun payload impl =>
       let verdict := match specEval e with
         | (.num n, ts) => withTriggers (judge (.num n) impl) ts
         | (.err t, ts) => withTriggers (judge (.err t) impl) ts
-        | (.free, _) => "-"
+        | (.free, _) => judge .free impl
       (model, verdict)
     | _ => ("BAD-CASE", "-")
   | "cmp" =>
@@ -143,11 +143,11 @@ def queriesHandler : Handler := fun payload impl =>
         | none => "BAD-OP"
       let verdict := match specEval e1 with
         | (.err t, ts) => withTriggers (judge (.err t) impl) ts
-        | (.free, _) => "-"
+        | (.free, _) => judge .free impl
         | (.num x, ts) =>
           match specEval e2 with
           | (.err t, ts') => withTriggers (judge (.err t) impl) (ts ++ ts')
-          | (.free, _) => "-"
+          | (.free, _) => judge .free impl
           | (.num y, ts') =>
             match wantCompare op x y with
             | some w => withTriggers (if impl == (if w then "true" else "false") then "ok" else s!"FAIL want {w}") (ts ++ ts')
